@@ -5,6 +5,7 @@
 //! the model's; the `#FAIL` suffix is the property's own oracle evaluated on the real code.
 
 mod deb;
+mod docspec;
 mod pgp;
 mod rel;
 mod util;
@@ -41,6 +42,7 @@ fn generate(prop: &str, tier: &str, seed: u64, out: &mut util::Out) {
     match prop {
         "C19" => pgp::generate(tier, seed, out),
         "C01" => deb::generate_c01(tier, seed, out),
+        "C03" => deb::generate_c03(tier, seed, out),
         _ => {}
     }
 }
